@@ -543,7 +543,20 @@ pub fn decode_pmtiles(b: &[u8]) -> Decoded {
 			}
 		}
 		tile_entries.sort_by_key(|e| e.id);
-		let offsets_ascending = tile_entries.windows(2).all(|w| w[1].off >= w[0].off);
+		// "clustered" as published: in tile-id order every entry is either contiguous with the data written so far, or points
+		// back into data that is already there (de-duplication)
+		let offsets_ascending = {
+			let mut end = tile_entries.first().map(|e| e.off).unwrap_or(0);
+			let mut ok = true;
+			for e in &tile_entries {
+				if e.off == end {
+					end = e.off + e.len;
+				} else if e.off + e.len > end {
+					ok = false;
+				}
+			}
+			ok
+		};
 		let addressed: u64 = tile_entries.iter().map(|e| e.run as u64).sum();
 		let contents = tile_entries.iter().map(|e| e.off).collect::<std::collections::BTreeSet<_>>().len();
 		let layout = json!({"fmt":"pmtiles","filelen":b.len(),"root":[root_off,root_len],"meta":[meta_off,meta_len],
